@@ -12,6 +12,7 @@ import (
 	"fmt"
 	"sync"
 	"testing"
+	"time"
 
 	"verif/mc"
 )
@@ -38,6 +39,7 @@ func runStorePhase[E any](r *mc.Run, ph storePhase[E], phases *[]map[string]any)
 		r.Capped("budget used up before phase " + ph.name)
 		return true
 	}
+	t0 := time.Now()
 	st := mc.BFS(mc.Space[E]{
 		Replay: func(hist []E) (string, *mc.Viol) {
 			var res storeResult
@@ -56,7 +58,7 @@ func runStorePhase[E any](r *mc.Run, ph storePhase[E], phases *[]map[string]any)
 		Workers:    mc.Pick(8, 12),
 		Stop:       r.OutOfBudget,
 	})
-	info := map[string]any{"name": ph.name, "event_menu": len(ph.menu), "max_depth": ph.maxDepth,
+	info := map[string]any{"name": ph.name, "wall_s": time.Since(t0).Seconds(), "event_menu": len(ph.menu), "max_depth": ph.maxDepth,
 		"depth_reached": st.Depth, "merge_check": ph.merge, "merge_checks": st.MergeChecks, "states": st.States,
 		"transitions": st.Transitions, "complete": st.Complete,
 		"fixpoint": st.Complete && st.Depth < ph.maxDepth && len(st.Violations) == 0}
